@@ -59,6 +59,14 @@ Definition is_refarr (a b : stmt) : option (name * name * name * name * list iex
   | _, _ => None
   end.
 
+(* is "a; b" the pair  size-of-vector(f,idx) written and handed to x; resize (f,idx) to x  (NiVector::Sync) ? *)
+Definition is_vecresize (a b : stmt) : option (name * list iexpr * N * lvar) :=
+  match a, b with
+  | SVecSize f idx w x, SResize f' idx' (ELocal x') =>
+    if (f' =? f) && idx_eqb idx' idx && (x' =? x) then Some (f, idx, w, x) else None
+  | _, _ => None
+  end.
+
 Section Chk.
   Variable Wtot : list wn.
 
@@ -92,7 +100,14 @@ Section Chk.
            && idx_matches P (WInt fsize) idx && idx_matches P (WSize frefs) idx && idx_matches P (WInt fidx) (idx ++ [ILocal j])
            && readable Wtot C (WInt fkeep) && idx_matches P (WInt fkeep) idx
         then Some (WInt fidx :: WSize frefs :: WInt fsize :: C, L) else None
-      | None => match kchk v P a C L with Some (C1, L1) => kchk v P b C1 L1 | None => None end
+      | None =>
+        match is_vecresize a b with
+        | Some (f, idx, w, x) =>
+          (* the resize to the size just written changes nothing: the pair is the size transfer alone *)
+          if target_ok P C L (WSize f) idx && free_var P x && (0 <? w) && negb (idx_mentions x idx)
+          then Some (WSize f :: C, x :: L) else None
+        | None => match kchk v P a C L with Some (C1, L1) => kchk v P b C1 L1 | None => None end
+        end
       end
     | SIf c t e =>
       match ver_only v c with
